@@ -123,6 +123,12 @@ pub trait Property: Send + Sync + 'static {
     fn stack_bytes(&self) -> usize {
         256 << 20
     }
+    /// verdict for a case whose isolated worker died twice (in the shard's child and in a solo re-run).
+    /// `how` = SIGSEGV / SIGABRT / exitN …; `stderr` = tail of what the worker wrote to stderr (e.g. the runtime's
+    /// "has overflowed its stack" line); `msg` = ready-made description.  Override to compute a narrower signature.
+    fn on_abort(&self, _case: &Self::Case, how: &str, _stderr: &str, msg: String) -> Verdict {
+        Verdict::fail(format!("abort:{how}"), msg)
+    }
     /// per-case watchdog for isolated properties (seconds)
     fn case_timeout_s(&self) -> u64 {
         120
@@ -285,11 +291,10 @@ fn eval_case<P: Property>(p: &P, exec: &mut Exec<P>, case: &P::Case, st: &mut St
                     // confirm on a fresh child, solo
                     match child.call(&req, p.case_timeout_s()) {
                         worker::Reply::Died(how2) => {
+                            let tail = child.stderr_tail();
                             child.respawn();
-                            (
-                                Verdict::fail(format!("abort:{}", how2), format!("worker process died ({how}; solo re-run: {how2})")),
-                                Obs::default(),
-                            )
+                            let msg = format!("worker process died ({how}; solo re-run: {how2}); stderr: {}", one_line(tail.trim(), 300));
+                            (p.on_abort(case, &how2, &tail, msg), Obs::default())
                         }
                         worker::Reply::Line(line) => {
                             // not reproducible solo: not charged to this case
